@@ -7,3 +7,6 @@ for m in $(ls Hpbf/Props/*.lean | sed 's#/#.#g; s#\.lean$##'); do lake build "$m
 cd /verif/harness
 CARGO_NET_OFFLINE=true cargo build --offline
 CARGO_NET_OFFLINE=true cargo build --offline --release
+# the hpbf binary used by the C16 black-box stream (built from /repo into /verif/work)
+mkdir -p /verif/work
+CARGO_NET_OFFLINE=true cargo build --offline --manifest-path /repo/Cargo.toml --target-dir /verif/work/cli_target --bin hpbf
